@@ -29,10 +29,31 @@ ENGINES = {
 }
 
 PROPS = {
-    'C13': dict(engine='e6', n=dict(quick=2500, thorough=60000), shards=4,
+    'C13': dict(engine='e6', n=dict(quick=20000, thorough=400000), shards=4,
                 manifest=dict(
-                    level_text='',
-                    level_note='',
+                    level_text='Coq theorems (coq/Props/C13.v) over an executable model of config.Read / setDefaults / validate* '
+                               '(Model/Config.v), for all registries and all configuration trees (rose-tree induction): the full '
+                               'statement "accepted iff consistent" is REFUTED on the current code (C13_accept_iff_refuted: '
+                               'validateUniqueID only walks first-child chains; open finding F1, not repairable without breaking the '
+                               'pinned node tests whose testdata carries such duplicates); proved instead: accepted iff the five '
+                               'clauses with uniqueness weakened to first-child chains (C13_accept_iff_partial), every fully '
+                               'consistent configuration is accepted, every accepted configuration satisfies all clauses other '
+                               'than full uniqueness, the gap is exactly off-chain duplicates (C13_gap_is_uniqueness), defaults of '
+                               'id/workers/buffersize for every node and handler and the timeout default (C13_defaults, '
+                               'C13_defaults_all_set), panic only with nil types or a missing source (C13_no_panic), and soundness '
+                               'of the decision procedure evaluated on the implementation (C13_spec_sound). Model tied to the code '
+                               'on every run by a correspondence check: generated YAML files (with ${VAR} references resolved from '
+                               'the environment) through the real config.Read against a registry palette incl. nil types, '
+                               'comparing accept/error/panic and every field of the returned node tree.',
+                    level_note='Proved: everything about the model (no axioms). Tied by the differential run only: that Model/Config.v '
+                               'is config.go (generator-bounded: <=14 nodes, depth <=4, <=4 roots, 16 node types / 5 source types). '
+                               'Partial: YAML parsing and os.ExpandEnv are exercised, not modelled - the model input is the '
+                               'configuration after substitution and parsing, so "${VAR} is replaced before parsing" is established '
+                               'by the run (returned ids/names/sizes equal the environment values), not by a theorem. Domain of the '
+                               'decision procedure: parsed file with a source section, non-negative sizes, no error handler with an '
+                               'explicit empty `children: []` (the code rejects it; the property text does not settle it). '
+                               'Trusted: Coq kernel, ExtrOcamlBasic extraction + ocaml/driver.ml, harness/e6 renderer and string '
+                               'interning, bin/check.',
                     technique='machine-checked proof in Coq over hand-written model + model/implementation correspondence check',
                     design_ref='DESIGN.md section 8, E6')),
 }
